@@ -34,7 +34,7 @@ SHARD_SIZE = 6
 
 
 def budget(tier):
-    return 112 if tier == "quick" else 3000
+    return 112 if tier == "quick" else 600
 
 
 # ----------------------------------------------------------------------------------
